@@ -2,7 +2,9 @@ package an
 
 import (
 	"fmt"
+	"go/constant"
 	"go/token"
+	"go/types"
 	"sort"
 	"strings"
 
@@ -91,6 +93,7 @@ type PathQ struct {
 	StartAfter []ssa.Instruction // start just after these instructions
 	StartEdges []Edge            // start at the head of Edge.To, having come from Edge.From
 	Tracked    []ssa.Value       // values bound to the tracked object at the start
+	Consts     map[ssa.Value]*ssa.Const // values (e.g. a bool parameter) fixed to a constant for this query
 	Sink       func(in ssa.Instruction, st *PathState) bool
 	SinkEdge   func(e Edge, st *PathState) bool
 	Cut        func(in ssa.Instruction, st *PathState) bool
@@ -132,6 +135,9 @@ func (q *PathQ) Find() (witness []string, found bool) {
 	initTracked := func(st *PathState) {
 		for _, v := range q.Tracked {
 			st.tracked[v] = true
+		}
+		for v, c := range q.Consts {
+			st.consts[v] = c
 		}
 	}
 	if q.StartEntry && len(q.Fn.Blocks) > 0 {
@@ -250,8 +256,8 @@ func (s *PathState) evalBool(v ssa.Value, depth int) (val, known bool) {
 		return false, false
 	}
 	if c, ok := s.ConstOf(v); ok && c.Value != nil {
-		if c.Value.Kind() == 1 { // constant.Bool
-			return c.Value.String() == "true", true
+		if c.Value.Kind() == constant.Bool {
+			return constant.BoolVal(c.Value), true
 		}
 	}
 	switch x := v.(type) {
@@ -521,3 +527,10 @@ func Reaches(from, to ssa.Instruction) bool {
 	_, f := q.Find()
 	return f
 }
+
+// BoolConst builds a boolean constant for PathQ.Consts.
+func BoolConst(b bool) *ssa.Const {
+	return ssa.NewConst(constantBool(b), types.Typ[types.Bool])
+}
+
+func constantBool(b bool) constant.Value { return constant.MakeBool(b) }
